@@ -2761,6 +2761,13 @@ def _put_slice_Compare__all(
                         bound_ln, bound_col, bound_end_ln, bound_end_col,
                         options)
 
+        if is_first:  # insertion at start offsets the zero-length alignment placeholders past the new source, move them back to start of self so that pars() of the new first element is bounded correctly
+            for a in (ast.left, ops[0]):
+                a.lineno = a.end_lineno = ast.lineno
+                a.col_offset = a.end_col_offset = ast.col_offset
+
+                a.f._touch()
+
         len_fst = len(fst_body)
 
         if op_side_left:
